@@ -16,13 +16,17 @@ import (
 	"bytes"
 	"fmt"
 	"net"
+	"os"
+	"path/filepath"
 	"syscall"
 	"time"
 
 	"github.com/coredhcp/coredhcp/config"
 	"github.com/coredhcp/coredhcp/plugins"
 	"github.com/coredhcp/coredhcp/plugins/dns"
+	"github.com/coredhcp/coredhcp/handler"
 	"github.com/coredhcp/coredhcp/plugins/prefix"
+	rangeplugin "github.com/coredhcp/coredhcp/plugins/range"
 	"github.com/coredhcp/coredhcp/plugins/router"
 	"github.com/coredhcp/coredhcp/server"
 	"github.com/insomniacslk/dhcp/dhcpv4"
@@ -39,11 +43,117 @@ func freePort(netw, addr string) int {
 	return c.LocalAddr().(*net.UDPAddr).Port
 }
 
+// verifprobe: a synthetic DHCPv6 plugin whose SET-UP sends a SOLICIT to the address the server is configured to listen
+// on and waits briefly for an answer. While plugins are being set up nothing may answer: a reply at that moment comes
+// from a listener that serves with a chain other than the configured one (C13). Its handler passes everything on.
+var probeTarget *net.UDPAddr
+var probeEarly string
+
+var probePlugin = plugins.Plugin{Name: "verifprobe", Setup6: func(args ...string) (handler.Handler6, error) {
+	probeEarly = "quiet"
+	if probeTarget != nil {
+		if c, err := net.DialUDP("udp6", nil, probeTarget); err == nil {
+			defer c.Close()
+			m, _ := dhcpv6.NewMessage()
+			m.MessageType = dhcpv6.MessageTypeSolicit
+			m.AddOption(dhcpv6.OptClientID(&dhcpv6.DUIDLL{HWType: iana.HWTypeEthernet, LinkLayerAddr: net.HardwareAddr{2, 0, 0, 0, 0, 0x77}}))
+			buf := make([]byte, 4096)
+			for try := 0; try < 3 && probeEarly == "quiet"; try++ {
+				c.Write(m.ToBytes())
+				c.SetReadDeadline(time.Now().Add(60 * time.Millisecond))
+				if n, err := c.Read(buf); err == nil && n > 0 {
+					probeEarly = "answered"
+				}
+			}
+		}
+	}
+	return func(req, resp dhcpv6.DHCPv6) (dhcpv6.DHCPv6, bool) { return resp, false }, nil
+}}
+
+// svstart 4 range2: two DHCPv4 listeners, one `range` plugin: a lease plugin named once is ONE instance, whichever
+// listener a request arrives on - client A on the first listener, client B on the second get different addresses, and A
+// asking again on the second listener keeps its own (C02 across listeners; C13: the listeners share the one chain).
+func startRange2() string {
+	if _, ok := plugins.RegisteredPlugins[rangeplugin.Plugin.Name]; !ok {
+		if err := plugins.RegisterPlugin(&rangeplugin.Plugin); err != nil {
+			return "skip register-range"
+		}
+	}
+	dir, err := os.MkdirTemp(".", "start")
+	if err != nil {
+		return "skip no-temp-dir"
+	}
+	defer os.RemoveAll(dir)
+	var addrs []net.UDPAddr
+	for i := 0; i < 2; i++ {
+		p := freePort("udp4", "127.0.0.1:0")
+		if p == 0 {
+			return "skip no-loopback-socket"
+		}
+		addrs = append(addrs, net.UDPAddr{IP: net.IPv4(127, 0, 0, 1).To4(), Port: p})
+	}
+	if addrs[0].Port == addrs[1].Port {
+		return "skip same-port-twice"
+	}
+	rx4, err := net.ListenUDP("udp4", &net.UDPAddr{IP: relayAddr(), Port: 67})
+	if err != nil {
+		return "skip cannot-bind-port-67"
+	}
+	defer rx4.Close()
+	cfg := &config.Config{Server4: &config.ServerConfig{Addresses: addrs, Plugins: []config.PluginConfig{
+		{Name: "range", Args: []string{filepath.Join(dir, "leases.sqlite3"), "10.9.0.1", "10.9.0.9", "60s"}}}}}
+	srv, err := server.Start(cfg)
+	if err != nil {
+		return "start-err " + hx([]byte(err.Error()))
+	}
+	defer srv.Close()
+	buf := make([]byte, 70000)
+	ask := func(to int, mac byte) string {
+		c, err := net.DialUDP("udp4", nil, &addrs[to])
+		if err != nil {
+			return "nosocket"
+		}
+		defer c.Close()
+		d, _ := dhcpv4.NewDiscovery(net.HardwareAddr{2, 0, 0, 0, 1, mac})
+		d.GatewayIPAddr = relayAddr()
+		d.HopCount = 1
+		for try := 0; try < 3; try++ {
+			c.Write(d.ToBytes())
+			deadline := time.Now().Add(700 * time.Millisecond)
+			for time.Now().Before(deadline) {
+				rx4.SetReadDeadline(deadline)
+				n, err := rx4.Read(buf)
+				if err != nil {
+					break
+				}
+				if x, err := dhcpv4.FromBytes(buf[:n]); err == nil && x.TransactionID == d.TransactionID {
+					return hx(x.YourIPAddr.To4())
+				}
+			}
+		}
+		return "none"
+	}
+	a := ask(0, 0xa)
+	b := ask(1, 0xb)
+	a2 := ask(1, 0xa)
+	return fmt.Sprintf("ok2 a=%s b=%s a2=%s", a, b, a2)
+}
+
 func startOp(f []string) string {
 	for _, p := range []*plugins.Plugin{&dns.Plugin, &router.Plugin, &prefix.Plugin} {
 		if _, ok := plugins.RegisteredPlugins[p.Name]; !ok {
 			if err := plugins.RegisterPlugin(p); err != nil {
 				return "skip register-" + p.Name
+			}
+		}
+	}
+	if f[2] == "range2" {
+		return startRange2()
+	}
+	if f[2] == "probe" {
+		if _, ok := plugins.RegisteredPlugins[probePlugin.Name]; !ok {
+			if err := plugins.RegisterPlugin(&probePlugin); err != nil {
+				return "skip register-probe"
 			}
 		}
 	}
@@ -55,6 +165,11 @@ func startOp(f []string) string {
 				return []config.PluginConfig{{Name: "router", Args: []string{"10.0.0.1"}}}
 			}
 			return []config.PluginConfig{{Name: "prefix", Args: []string{"2001:db8::/48", "64"}}}
+		case "probe":
+			if v6 {
+				return []config.PluginConfig{{Name: "verifprobe"}}
+			}
+			return []config.PluginConfig{}
 		case "dns":
 			if v6 {
 				return []config.PluginConfig{{Name: "dns", Args: []string{"2001:db8::53"}}}
@@ -72,6 +187,7 @@ func startOp(f []string) string {
 		}
 		a6 = net.UDPAddr{IP: net.IPv6loopback, Port: p}
 		cfg.Server6 = &config.ServerConfig{Addresses: []net.UDPAddr{a6}, Plugins: chain(true)}
+		probeTarget = &a6
 	}
 	var rx4 *net.UDPConn
 	if has4 {
@@ -139,6 +255,9 @@ func startOp(f []string) string {
 				}
 			}
 		}
+	}
+	if f[2] == "probe" {
+		return fmt.Sprintf("ok 6:%s 4:%s during-setup:%s", r6, r4, probeEarly)
 	}
 	return fmt.Sprintf("ok 6:%s 4:%s", r6, r4)
 }
